@@ -552,7 +552,8 @@ static void pre_sys(const char *name, int fd, size_t n) {
     cur->p->syscalls++;
     if (sim_hooks.pre_syscall) {
         int sig = sim_hooks.pre_syscall(cur->p, name, fd, n);
-        if (sig) kill_self(sig);
+        if (sig >= 256) { sim_event("injected-exit pid=%d code=%d", cur->p->pid, sig - 256); proc_exit(cur->p, ((sig - 256) & 0xff) << 8, false); }
+        else if (sig) kill_self(sig);
     }
 }
 
@@ -589,14 +590,18 @@ ssize_t k_read(int fd, void *buf, size_t n) {
         }
         size_t k = n < f->rx.len ? n : f->rx.len;
         k = shorten(k, K.short_read_pm, &S.short_reads);
-        return (ssize_t)buf_get(&f->rx, buf, k);
+        k = buf_get(&f->rx, buf, k);
+        if (sim_hooks.post_read) sim_hooks.post_read(cur->p, fd, buf, k);
+        return (ssize_t)k;
     } else {
         Pipe *p = f->pipe;
         if (p->buf.len == 0 && p->writers > 0) { S.blocked_reads++; block_on(rdy_pipe_read, p, "R"); }
         if (p->buf.len == 0) { S.eofs++; return 0; }
         size_t k = n < p->buf.len ? n : p->buf.len;
         k = shorten(k, K.short_read_pm, &S.short_reads);
-        return (ssize_t)buf_get(&p->buf, buf, k);
+        k = buf_get(&p->buf, buf, k);
+        if (sim_hooks.post_read) sim_hooks.post_read(cur->p, fd, buf, k);
+        return (ssize_t)k;
     }
 }
 
@@ -650,15 +655,14 @@ ssize_t k_write(int fd, const void *buf, size_t n) {
     sim_yield("w");
     if (n == 0) return 0;
     if (chance_pm(CH_EINTR, K.eintr_pm)) { S.eintrs++; errno = EINTR; return -1; }
-    Buf repl = {0};
+    Buf repl = {0}; bool replaced = false;
     const uint8_t *src = buf; size_t want = n;
     if (sim_hooks.write_filter) {
         long r = sim_hooks.write_filter(cur->p, f, buf, n, &repl);
-        if (r >= 0) { src = repl.d; want = (size_t)r; }
+        if (r >= 0) { src = repl.d; want = (size_t)r; replaced = true; }
     }
     size_t done = 0;
-    size_t limit = shorten(want, K.short_write_pm, &S.short_writes);
-    if (repl.d) limit = want;
+    size_t limit = replaced ? want : shorten(want, K.short_write_pm, &S.short_writes);
     while (done < limit) {
         size_t room;
         if (f->kind == F_STREAM) {
@@ -677,7 +681,7 @@ ssize_t k_write(int fd, const void *buf, size_t n) {
             buf_put(&p->buf, src + done, k); done += k;
         }
     }
-    if (repl.d) { buf_free(&repl); return (ssize_t)n; }
+    if (replaced) { buf_free(&repl); return (ssize_t)n; }
     return (ssize_t)done;
 }
 /* stdio of a simulated process flushing into its fd 1/2 */
@@ -1119,6 +1123,7 @@ int simk_fd_install(SimFile *f) { int fd = fd_alloc(cur->p, f); if (fd < 0) free
 SimFile *simk_fd_get(int fd) { return fd_get(fd); }
 void simk_note_syscall(const char *name, int fd) { pre_sys(name, fd, 0); }
 void simk_kill_self(int sig) { kill_self(sig); }
+void simk_proc_close_fd(SimProc *p, int fd) { if (fd >= 0 && fd < SIM_MAXFD && p->fds[fd]) { SimFile *f = p->fds[fd]; p->fds[fd] = NULL; file_unref(f); } }
 int sim_proc_live_tasks(SimProc *p) {
     int n = 0;
     for (int i = 0; i < MAXT; i++) if ((tasks[i].state == T_RUNNABLE || tasks[i].state == T_BLOCKED) && tasks[i].p == p) n++;
